@@ -291,7 +291,7 @@ func init() {
 	Register(Spec[sigCase]{
 		ID: "C01", Suite: "hist", CoqImports: []string{"Check.C01"},
 		CoqType: "list Check.C01.hop", CoqRun: "Check.C01.run_hist",
-		Quick: 1000, Thorough: 30000, Parallel: 8,
+		Quick: 1000, Thorough: 12000, Parallel: 8,
 		Corpus: c01Corpus,
 		Gen: func(r *Rand, i int) sigCase {
 			maxLen := 12
